@@ -23,13 +23,13 @@ structure NC (f : Nat) : Prop where
     Safe (PostA elem) (arrayInit2Loop f elem toks init i)
   arrayInit2 : ∀ elem toks init i, tyOK elem = true → (init = .flex ∨ arrOK elem init) → toksOK toks = true →
     Safe (PostA elem) (arrayInit2 f elem toks init i)
-  structInit1Loop : ∀ ms toks init mem first, msOK ms = true → stOK ms init → toksOK toks = true →
-    Safe (PostS ms) (structInit1Loop f ms toks init mem first)
-  structInit1 : ∀ ms toks init, msOK ms = true → stOK ms init → toksOK toks = true →
-    Safe (PostS ms) (structInit1 f ms toks init)
-  structInit2 : ∀ ms toks init mem first, msOK ms = true → stOK ms init → toksOK toks = true →
-    Safe (PostS ms) (structInit2 f ms toks init mem first)
-  unionInit : ∀ ms toks init, msOK ms = true → ms ≠ [] → unOK ms init → toksOK toks = true →
+  structInit1Loop : ∀ u ms toks init mem first, msOK ms = true → aggOK u ms init → toksOK toks = true →
+    Safe (PostG u ms) (structInit1Loop f ms toks init mem first)
+  structInit1 : ∀ u ms toks init, msOK ms = true → aggOK u ms init → toksOK toks = true →
+    Safe (PostG u ms) (structInit1 f ms toks init)
+  structInit2 : ∀ u ms toks init mem first, msOK ms = true → aggOK u ms init → toksOK toks = true →
+    Safe (PostG u ms) (structInit2 f ms toks init mem first)
+  unionInit : ∀ ms toks init, msOK ms = true → unOK ms init → toksOK toks = true →
     Safe (PostU ms) (unionInit f ms toks init)
   initializer2 : ∀ ty toks init, tyOK ty = true → shape ty init = true → toksOK toks = true →
     Safe (Post ty) (initializer2 f ty toks init)
@@ -42,10 +42,10 @@ theorem nc_zero : NC 0 where
   arrayInit1 := fun _ _ _ _ _ _ => Safe.fuel
   arrayInit2Loop := fun _ _ _ _ _ _ _ => Safe.fuel
   arrayInit2 := fun _ _ _ _ _ _ _ => Safe.fuel
-  structInit1Loop := fun _ _ _ _ _ _ _ _ => Safe.fuel
-  structInit1 := fun _ _ _ _ _ _ => Safe.fuel
-  structInit2 := fun _ _ _ _ _ _ _ _ => Safe.fuel
-  unionInit := fun _ _ _ _ _ _ _ => Safe.fuel
+  structInit1Loop := fun _ _ _ _ _ _ _ _ _ => Safe.fuel
+  structInit1 := fun _ _ _ _ _ _ _ => Safe.fuel
+  structInit2 := fun _ _ _ _ _ _ _ _ _ => Safe.fuel
+  unionInit := fun _ _ _ _ _ _ => Safe.fuel
   initializer2 := fun _ _ _ _ _ _ => Safe.fuel
 
 /-! ## pieces shared by several arms -/
@@ -84,6 +84,12 @@ theorem unOK_setMem {ms : Members} {init : Init} (h : unOK ms init) (k : Nat) : 
 theorem unOK_setExpr {ms : Members} {init : Init} (h : unOK ms init) (x : Option Expr) : unOK ms (init.setExpr x) := by
   obtain ⟨e, m, cs, rfl, hcs⟩ := h
   exact ⟨x, m, cs, rfl, hcs⟩
+
+theorem aggOK_setChild {u : Bool} {ms : Members} {init : Init} (h : aggOK u ms init) (k : Nat) (mi : MemInfo) (t : Ty) (c : Init)
+    (hk : ms[k]? = some (mi, t)) (hc : shape t c = true) : aggOK u ms (init.setChild k c) := by
+  cases u
+  · exact stOK_setChild h k mi t c hk hc
+  · exact unOK_setChild h k mi t c hk hc
 
 theorem get_of_lt (ms : Members) (k : Nat) (h : k < ms.length) : ∃ mi t, ms[k]? = some (mi, t) := by
   have := List.getElem?_eq_getElem h
@@ -280,21 +286,26 @@ theorem stOK_children {ms : Members} {init : Init} (h : stOK ms init) : shapeMs 
 theorem unOK_children {ms : Members} {init : Init} (h : unOK ms init) : shapeMs ms init.children = true := by
   obtain ⟨e, m, cs, rfl, hcs⟩ := h; exact hcs
 
-theorem structInit1_succ (f : Nat) (ih : NC f) (ms : Members) (toks : List ITok) (init : Init) (hms : msOK ms = true)
-    (hinit : stOK ms init) (htoks : toksOK toks = true) : Safe (PostS ms) (structInit1 (f + 1) ms toks init) := by
+theorem aggOK_children {u : Bool} {ms : Members} {init : Init} (h : aggOK u ms init) : shapeMs ms init.children = true := by
+  cases u
+  · exact stOK_children h
+  · exact unOK_children h
+
+theorem structInit1_succ (f : Nat) (ih : NC f) (u : Bool) (ms : Members) (toks : List ITok) (init : Init) (hms : msOK ms = true)
+    (hinit : aggOK u ms init) (htoks : toksOK toks = true) : Safe (PostG u ms) (structInit1 (f + 1) ms toks init) := by
   simp only [structInit1]
   refine Safe.bind (skipTok_safe _ _ _ htoks) ?_
   intro toks' h'
-  exact ih.structInit1Loop ms toks' init 0 true hms hinit h'
+  exact ih.structInit1Loop u ms toks' init 0 true hms hinit h'
 
-theorem structInit1Loop_succ (f : Nat) (ih : NC f) (ms : Members) (toks : List ITok) (init : Init) (mem : Nat) (first : Bool)
-    (hms : msOK ms = true) (hinit : stOK ms init) (htoks : toksOK toks = true) :
-    Safe (PostS ms) (structInit1Loop (f + 1) ms toks init mem first) := by
+theorem structInit1Loop_succ (f : Nat) (ih : NC f) (u : Bool) (ms : Members) (toks : List ITok) (init : Init) (mem : Nat) (first : Bool)
+    (hms : msOK ms = true) (hinit : aggOK u ms init) (htoks : toksOK toks = true) :
+    Safe (PostG u ms) (structInit1Loop (f + 1) ms toks init mem first) := by
   simp only [structInit1Loop]
   split
   · rename_i rest hce
     exact ⟨hinit, consumeEnd_ok toks rest htoks hce⟩
-  · have body : ∀ toks', toksOK toks' = true → Safe (PostS ms)
+  · have body : ∀ toks', toksOK toks' = true → Safe (PostG u ms)
         (match toks' with
         | .dot name :: r => do
           let __x ← structDesignator name ms 0
@@ -318,7 +329,7 @@ theorem structInit1Loop_succ (f : Nat) (ih : NC f) (ms : Members) (toks : List I
       · rename_i name r
         refine Safe.bind (structDesignator_safe name ms 0) ?_
         intro x hx
-        obtain ⟨mi, t, c, hk', hm, hg, hsc, hty⟩ := member_at hms (stOK_children hinit) (k := x.1) (by omega)
+        obtain ⟨mi, t, c, hk', hm, hg, hsc, hty⟩ := member_at hms (aggOK_children hinit) (k := x.1) (by omega)
         have htok : toksOK (if x.snd = true then (.dot name :: r) else r) = true := by
           split
           · exact h'
@@ -329,28 +340,28 @@ theorem structInit1Loop_succ (f : Nat) (ih : NC f) (ms : Members) (toks : List I
         rintro _ rfl
         refine Safe.bind (ih.designation t _ c hty hsc htok) ?_
         intro r1 hr1
-        exact ih.structInit1Loop ms r1.2 _ (x.1 + 1) false hms (stOK_setChild hinit x.1 mi t r1.1 hk' hr1.1) hr1.2
+        exact ih.structInit1Loop u ms r1.2 _ (x.1 + 1) false hms (aggOK_setChild hinit x.1 mi t r1.1 hk' hr1.1) hr1.2
       · apply Safe.ite
         · intro hlt
-          obtain ⟨mi, t, c, hk', hm, hg, hsc, hty⟩ := member_at hms (stOK_children hinit) hlt
+          obtain ⟨mi, t, c, hk', hm, hg, hsc, hty⟩ := member_at hms (aggOK_children hinit) hlt
           refine Safe.bind (Safe.of_eq hm) ?_
           rintro _ rfl
           refine Safe.bind (Safe.of_eq hg) ?_
           rintro _ rfl
           refine Safe.bind (ih.initializer2 t toks' c hty hsc h') ?_
           intro r1 hr1
-          exact ih.structInit1Loop ms r1.2 _ _ false hms (stOK_setChild hinit _ mi t r1.1 hk' hr1.1) hr1.2
+          exact ih.structInit1Loop u ms r1.2 _ _ false hms (aggOK_setChild hinit _ mi t r1.1 hk' hr1.1) hr1.2
         · intro _
           refine Safe.bind (skipExcess_safe f toks' h') ?_
           intro t2 ht2
-          exact ih.structInit1Loop ms t2 init _ false hms hinit ht2
+          exact ih.structInit1Loop u ms t2 init _ false hms hinit ht2
     apply Safe.ite'
     · exact Safe.bind (Safe.pure htoks) body
     · exact Safe.bind (skipTok_safe _ _ _ htoks) body
 
-theorem structInit2_succ (f : Nat) (ih : NC f) (ms : Members) (toks : List ITok) (init : Init) (mem : Nat) (first : Bool)
-    (hms : msOK ms = true) (hinit : stOK ms init) (htoks : toksOK toks = true) :
-    Safe (PostS ms) (structInit2 (f + 1) ms toks init mem first) := by
+theorem structInit2_succ (f : Nat) (ih : NC f) (u : Bool) (ms : Members) (toks : List ITok) (init : Init) (mem : Nat) (first : Bool)
+    (hms : msOK ms = true) (hinit : aggOK u ms init) (htoks : toksOK toks = true) :
+    Safe (PostG u ms) (structInit2 (f + 1) ms toks init mem first) := by
   simp only [structInit2]
   split
   · exact Safe.pure ⟨hinit, htoks⟩
@@ -359,9 +370,9 @@ theorem structInit2_succ (f : Nat) (ih : NC f) (ms : Members) (toks : List ITok)
     · intro _; exact Safe.pure ⟨hinit, htoks⟩
     · intro _
       apply Safe.ite
-      · intro _; exact ih.structInit2 ms toks init (mem + 1) first hms hinit htoks
+      · intro _; exact ih.structInit2 u ms toks init (mem + 1) first hms hinit htoks
       · intro _
-        have body : ∀ toks', toksOK toks' = true → Safe (PostS ms)
+        have body : ∀ toks', toksOK toks' = true → Safe (PostG u ms)
             (if isDesg toks' = true then pure (init, toks) else do
               let c ← getChild init.children mem
               let __x ← initializer2 f mty toks' c
@@ -370,12 +381,12 @@ theorem structInit2_succ (f : Nat) (ih : NC f) (ms : Members) (toks : List ITok)
           apply Safe.ite
           · intro _; exact Safe.pure ⟨hinit, htoks⟩
           · intro _
-            obtain ⟨c, hg, hsc⟩ := member_child (stOK_children hinit) hget
+            obtain ⟨c, hg, hsc⟩ := member_child (aggOK_children hinit) hget
             refine Safe.bind (Safe.of_eq hg) ?_
             rintro _ rfl
             refine Safe.bind (ih.initializer2 mty toks' c (msOK_get ms mem mi mty hms hget) hsc h') ?_
             intro r1 hr1
-            exact ih.structInit2 ms r1.2 _ (mem + 1) false hms (stOK_setChild hinit mem mi mty r1.1 hget hr1.1) hr1.2
+            exact ih.structInit2 u ms r1.2 _ (mem + 1) false hms (aggOK_setChild hinit mem mi mty r1.1 hget hr1.1) hr1.2
         apply Safe.ite'
         · exact Safe.bind (Safe.pure htoks) body
         · exact Safe.bind (skipTok_safe _ _ _ htoks) body
@@ -426,7 +437,7 @@ theorem closeBrace_safe {α : Type} (Q : α × List ITok → Prop) (v : α) (tok
   exact Safe.pure (hq rest hrest)
 
 theorem unionInit_succ (f : Nat) (ih : NC f) (ms : Members) (toks : List ITok) (init : Init) (hms : msOK ms = true)
-    (hne : ms ≠ []) (hinit : unOK ms init) (htoks : toksOK toks = true) :
+    (hinit : unOK ms init) (htoks : toksOK toks = true) :
     Safe (PostU ms) (unionInit (f + 1) ms toks init) := by
   simp only [unionInit]
   split
@@ -447,14 +458,14 @@ theorem unionInit_succ (f : Nat) (ih : NC f) (ms : Members) (toks : List ITok) (
     intro r1 hr1
     exact closeBrace_safe (PostU ms) _ r1.2 hr1.2 (fun rest hrest => ⟨unOK_setChild hinit' x.1 mi t r1.1 hk' hr1.1, hrest⟩)
   · apply Safe.ite
-    · intro he
-      cases ms with
-      | nil => exact absurd rfl hne
-      | cons m r => simp at he
     · intro _
+      apply Safe.ite
+      · intro _; exact ih.structInit1 true ms toks init hms hinit htoks
+      · intro _; exact Safe.pure ⟨hinit, htoks⟩
+    · intro hne
       have hlen : 0 < ms.length := by
         cases ms with
-        | nil => exact absurd rfl hne
+        | nil => simp at hne
         | cons m r => simp
       have hk := firstNamed_lt ms ms.length 0 hlen
       have hinit' := unOK_setMem hinit (firstNamed ms ms.length 0)
@@ -514,27 +525,26 @@ theorem initializer2_succ (f : Nat) (ih : NC f) (ty : Ty) (toks : List ITok) (in
     have hi := (shape_struct_iff ms n fl init).1 hinit
     simp only [initializer2]
     apply Safe.ite
-    · intro _; exact postS_struct (ih.structInit1 ms toks init hms hi htoks)
+    · intro _; exact postS_struct (ih.structInit1 false ms toks init hms hi htoks)
     · intro _
       refine Safe.bind (parseAssign_safe toks htoks) ?_
       intro r hr
       apply Safe.ite
       · intro _; exact Safe.pure ⟨(shape_struct_iff ms n fl _).2 (stOK_setExpr hi _), hr⟩
-      · intro _; exact postS_struct (ih.structInit2 ms toks init 0 true hms hi htoks)
+      · intro _; exact postS_struct (ih.structInit2 false ms toks init 0 true hms hi htoks)
   | union ms n fl =>
-    have hms : msOK ms = true ∧ ms ≠ [] := by
-      simp only [tyOK, Bool.and_eq_true, Bool.not_eq_true', List.isEmpty_eq_false_iff] at hty
-      exact ⟨hty.1.2, hty.1.1⟩
+    have hms : msOK ms = true := by
+      simp only [tyOK, Bool.and_eq_true] at hty; exact hty.1
     have hi := (shape_union_iff ms n fl init).1 hinit
     simp only [initializer2]
     apply Safe.ite
-    · intro _; exact postU_union (ih.unionInit ms toks init hms.1 hms.2 hi htoks)
+    · intro _; exact postU_union (ih.unionInit ms toks init hms hi htoks)
     · intro _
       refine Safe.bind (parseAssign_safe toks htoks) ?_
       intro r hr
       apply Safe.ite
       · intro _; exact Safe.pure ⟨(shape_union_iff ms n fl _).2 (unOK_setExpr hi _), hr⟩
-      · intro _; exact postU_union (ih.unionInit ms toks init hms.1 hms.2 hi htoks)
+      · intro _; exact postU_union (ih.unionInit ms toks init hms hi htoks)
   | scalar sz k =>
     simp only [initializer2]
     split
@@ -626,11 +636,11 @@ theorem designation_succ (f : Nat) (ih : NC f) (ty : Ty) (toks : List ITok) (ini
         rintro _ rfl
         refine Safe.bind (ih.designation t _ c hty' hsc htok) ?_
         intro r1 hr1
-        exact postS_struct (ih.structInit2 ms r1.2 _ (x.1 + 1) false hms
+        exact postS_struct (ih.structInit2 false ms r1.2 _ (x.1 + 1) false hms
           (stOK_setExpr (stOK_setChild hi x.1 mi t r1.1 hk' hr1.1) none) hr1.2)
       | union ms n fl =>
         have hms : msOK ms = true := by
-          simp only [tyOK, Bool.and_eq_true] at hty; exact hty.1.2
+          simp only [tyOK, Bool.and_eq_true] at hty; exact hty.1
         have hi := (shape_union_iff ms n fl init).1 hinit
         simp only [designation]
         refine Safe.bind (structDesignator_safe name ms 0) ?_
